@@ -336,7 +336,7 @@ fff_array fff_array_get_block(const fff_array* thisone,
   char* data = (char*)thisone->data;
   data += x0*thisone->byte_offsetX + y0*thisone->byte_offsetY + z0*thisone->byte_offsetZ + t0*thisone->byte_offsetT;
   return fff_array_view(thisone->datatype, (void*)data,
-			(x1-x0)/fX+1, (y1-y0)/fY+1, (z1-z0)/fZ+1, (t1-t0)/fZ+1,
+			(x1-x0)/fX+1, (y1-y0)/fY+1, (z1-z0)/fZ+1, (t1-t0)/fT+1,
 			fX*thisone->offsetX, fY*thisone->offsetY, fZ*thisone->offsetZ, fT*thisone->offsetT);
 }
 
